@@ -198,6 +198,7 @@ def check_properties_file(relpath, deps, timeout=1500):
     src = os.path.join(COQ, relpath)
     txt = strip_coq_comments(open(src).read())
     names = THEOREM_RE.findall(txt)
+    deps = list(deps) + [relpath[:-2] + ".vo"]       # the theorem file pulls in its whole closure
     ok, out, dt = coq_make(deps, timeout=timeout)
     res = dict(ok=False, obligations=names, discharged=[], assumptions={}, log=out[-4000:],
                cmd="make -C coq %s && coqc -Q . Heph %s" % (" ".join(deps), relpath),
